@@ -402,6 +402,53 @@ func genC12Enum(ws *WorldSet, wi, k int, zero, link bool) C12Case {
 	return C12Case{World: world, Mode: "enum", Steps: []Step{st, {Op: "run", Inv: &iv, Bin: "plain"}}}
 }
 
+// genC12Near: residues that are ALMOST what the run is about to write - the
+// current result cut at its very end, with other line terminators, with extra
+// or missing trailing newlines, with one byte changed. A run that compares before
+// it writes (to spare the file's time stamp, say) has to compare exactly.
+var c12NearKinds = []string{"cut-last-byte", "cut-last-2", "cut-last-line", "extra-newline", "extra-newlines", "crlf", "cr-at-end", "trailing-space", "last-byte-changed", "one-byte-changed", "upper-cased-comment"}
+
+func genC12Near(ws *WorldSet, wi, t int) C12Case {
+	world := ws.Worlds[wi]
+	out := ws.Canon[wi].Out
+	iv := SetupInv(world)
+	kind := c12NearKinds[t%len(c12NearKinds)]
+	d := append([]byte(nil), out...)
+	L := len(d)
+	switch kind {
+	case "cut-last-byte":
+		d = d[:L-1]
+	case "cut-last-2":
+		d = d[:L-2]
+	case "cut-last-line":
+		d = d[:bytes.LastIndexByte(d[:L-1], '\n')+1]
+	case "extra-newline":
+		d = append(d, '\n')
+	case "extra-newlines":
+		d = append(d, "\n\n\n"...)
+	case "crlf":
+		d = bytes.ReplaceAll(d, []byte("\n"), []byte("\r\n"))
+	case "cr-at-end":
+		d = append(d[:L-1], "\r\n"...)
+	case "trailing-space":
+		d = append(d[:L-1], " \n"...)
+	case "last-byte-changed":
+		d[L-1] = ' '
+	case "one-byte-changed":
+		// inside the last identifier-ish run of the body
+		for i := L - 2; i > 0; i-- {
+			if d[i] >= 'a' && d[i] <= 'y' {
+				d[i]++
+				break
+			}
+		}
+	case "upper-cased-comment":
+		d = bytes.Replace(d, []byte("// Code generated by"), []byte("// CODE GENERATED BY"), 1)
+	}
+	st := Step{Op: "write", Path: iv.OutPath, Data: d, Note: "near-identical:" + kind}
+	return C12Case{World: world, Mode: "near", Steps: []Step{st, {Op: "run", Inv: &iv, Bin: "plain"}}}
+}
+
 type twinKey struct{ world, setup, args, gofile, cwd, env string }
 
 type twinEntry struct {
@@ -793,8 +840,24 @@ func runC12(cfg Config, args []string) int {
 			edits = append(edits, recItem{wi, t})
 		}
 	}
-	b := &Batch[C12Case]{Property: "C12", Level: "fault_enumeration", Cfg: cfg, Env: env, N: nHist + len(enum) + len(rec) + len(edits),
+	// near-identical residues for the enumeration worlds (quick: two, thorough: up to 10)
+	var near []recItem
+	cnt = 0
+	for wi := range worlds {
+		if !canon[wi].Accepted || len(canon[wi].Out) < 8 || cnt >= cfg.N(2, 10) {
+			continue
+		}
+		cnt++
+		for t := range c12NearKinds {
+			near = append(near, recItem{wi, t})
+		}
+	}
+	b := &Batch[C12Case]{Property: "C12", Level: "fault_enumeration", Cfg: cfg, Env: env, N: nHist + len(enum) + len(rec) + len(edits) + len(near),
 		Gen: func(i int) C12Case {
+			if i >= nHist+len(enum)+len(rec)+len(edits) {
+				j := i - (nHist + len(enum) + len(rec) + len(edits))
+				return genC12Near(ws, near[j].wi, near[j].t)
+			}
 			if i < len(enum) {
 				return genC12Enum(ws, enum[i].wi, enum[i].k, enum[i].zero, enum[i].link)
 			}
@@ -813,7 +876,7 @@ func runC12(cfg Config, args []string) int {
 			"(thorough: every k and every zero-filled tail for up to 10 accepted worlds; quick: k<=80 for two worlds); plus crash-recovery templates for every crash kind (before/after the open, mid-write, before the close, before/after a rename onto the output): [crash, run] and [edit to a longer setup, (run,) crash, edit back, run]; and edit templates for every variant of the setup file (method added / removed, notation swapped, comment appended, package renamed, import renamed): [run, edit, run] and [run, edit, run, edit back, run]. distinct_nontrivial counts distinct (world, residue kind, where the residue ends, flag set, twin status) tuples at compared runs.",
 		Assume: []string{"only the residue categories the property names are generated: older output, truncation at any byte (also with zero-filled tail / block-aligned cut), syntactically broken Go of the same package",
 			"stderr is not compared (not in the statement)"},
-		Extra:    map[string]any{"components_real": componentsReal, "components_simulated": componentsSim, "seam": env.Seam, "enumerated_truncation_cases": len(enum), "crash_recovery_template_cases": len(rec), "edit_template_cases": len(edits), "history_cases": nHist, "simulated_time": "not applicable: convergen reads no clock"},
+		Extra:    map[string]any{"components_real": componentsReal, "components_simulated": componentsSim, "seam": env.Seam, "enumerated_truncation_cases": len(enum), "crash_recovery_template_cases": len(rec), "edit_template_cases": len(edits), "near_identical_residue_cases": len(near), "history_cases": nHist, "simulated_time": "not applicable: convergen reads no clock"},
 		Required: []string{"n:compared_runs_with_something_at_output"},
 		Desired:  []string{"n:crashes_landed_in_write", "n:failed_writes"},
 	}
